@@ -124,9 +124,24 @@ def run_case(tap, g, idx, spec):
     tap.pop()
     # ---------------- (1) direct feed: random sequence, random time axis, random monotone g table
     n = int(g.integers(10, 400))
-    dt = g.uniform(0.01, 200.0, n) if g.random() < 0.7 else g.choice([1.0, 24.0, 730.0], n)
+    axis = int(g.integers(0, 6))
+    if axis <= 2:
+        dt = g.uniform(0.01, 200.0, n)
+    elif axis == 3:
+        dt = g.choice([1.0, 24.0, 730.0], n)
+    elif axis == 4:  # equal increments (hourly-like, any step)
+        dt = np.full(n, float(g.choice([1.0, 0.25, 6.0, 24.0, g.uniform(0.5, 50)])))
+    else:  # equal increments after a first period of another length (a month, then equal peaks; an offset hourly axis)
+        step = float(g.choice([1.0, 6.0, 12.0, 24.0, g.uniform(0.5, 50)]))
+        dt = np.full(n, step)
+        dt[0] = float(g.choice([0.5 * step, 3.0 * step, 744.0, g.uniform(0.1, 5) * step]))
+        if g.random() < 0.3:
+            n = 2
+            dt = dt[:2]
     t = np.cumsum(dt)
+    stats["axis_family"] = axis
     sign_mode = int(g.integers(0, 4))
+    n = len(t)
     q = g.normal(0, 1, n) * 10 ** g.uniform(2, 5.5)
     if sign_mode == 1:
         q = np.abs(q)
@@ -220,7 +235,7 @@ def run_case(tap, g, idx, spec):
         stats["hourly_steps"] = nh
         if e3 > 1e-9:
             bad("hourly-simulation-differs-from-superposition", f"max |dT| / span = {e3:.3g} over {nh} hours")
-    both_signs = sign_mode in (0, 3) and n >= 10
+    both_signs = sign_mode in (0, 3) and (n >= 10 or axis == 5)
     return v, stats, case, both_signs
 
 
